@@ -1517,19 +1517,17 @@ func resolveVar(computed map[string]pr.RawTokens, token Token, visiting utils.Se
 
 	fn := token.(pa.FunctionBlock)
 	if utils.AsciiLower(fn.Name) != "var" {
+		// resolve the var() of the arguments, at any depth: each argument is
+		// smaller than the token, so the recursion ends
 		arguments := []Token{}
 		for _, argument := range fn.Arguments {
-			if fna, isFunction := argument.(pa.FunctionBlock); isFunction && utils.AsciiLower(fna.Name) == "var" {
-				arguments = append(arguments, resolveVar(computed, argument, visiting)...)
+			if resolved := resolveVar(computed, argument, visiting); resolved != nil {
+				arguments = append(arguments, resolved...)
 			} else {
 				arguments = append(arguments, argument)
 			}
 		}
-		token = pa.NewFunctionBlock(token.Pos(), fn.Name, arguments)
-		if resolved := resolveVar(computed, token, visiting); len(resolved) != 0 {
-			return resolved
-		}
-		return []Token{token}
+		return []Token{pa.NewFunctionBlock(token.Pos(), fn.Name, arguments)}
 	}
 
 	_, args := pa.ParseFunction(token)
